@@ -19,6 +19,13 @@ Theorem C14_total : forall cfg e w p tape,
 Proof. intros cfg e w p tape H x. exact (recv_never_panics cfg e w p tape 0 H x). Qed.
 Print Assumptions C14_total.
 
+(* whatever the chain's Hyperlane post-dispatch hooks charge for gas *)
+Theorem C14_total_hooks : forall g cfg e w p tape,
+  is_panic (memo_of p) = false ->
+  forall x, rr_out (recv_gas g cfg e w p tape 0) <> OPanic x.
+Proof. intros g cfg e w p tape H x. exact (recv_gas_never_panics g cfg e w p tape 0 H x). Qed.
+Print Assumptions C14_total_hooks.
+
 (* ... and the decoder does return, for EVERY JSON document (null / absent / wrongly typed members at every
    position, null list entries, repeated keys, extreme numbers): an error, never a panic - so whatever
    document the memo holds, the receive path answers with an acknowledgement *)
